@@ -172,7 +172,8 @@ fn base_plan(prop: &str, tier: &str, run_seed: u64) -> Plan {
     let mut crng = rng.fork(3);
     let gc = gencfg(prop, tier, &mut crng);
     let mut prng = rng.fork(1);
-    let program = gen::gen_program(&mut prng, &gc);
+    let scripted = matches!(prop, "C01" | "C03" | "C05" | "C06" | "C07" | "C11") && (crng.chance(1, 12) || std::env::var("VERIF_SCRIPTED").is_ok());
+    let program = if scripted { gen::gen_shrinking_tree_race(&mut prng, prop != "C01") } else { gen::gen_program(&mut prng, &gc) };
     let mut srng = rng.fork(2);
     let (stall_pct, spurious) = match prop {
         "C01" => (15, false),
@@ -180,12 +181,14 @@ fn base_plan(prop: &str, tier: &str, run_seed: u64) -> Plan {
         "C10" | "C07" => (20, false),
         _ => (10, false),
     };
-    let setup = gen::gen_setup(&mut srng, run_seed, &program, stall_pct, spurious);
+    let mut setup = gen::gen_setup(&mut srng, run_seed, &program, stall_pct, spurious);
+    if scripted && srng.chance(1, 2) {
+        setup.strat = gen::shrinking_tree_script(&mut srng, program.threads.len());
+    }
     let mut opts = ExecOpts::default();
     if prop == "C06" {
         opts.lookup_cost = true;
     }
-    let mut setup = setup;
     if prop == "C15" {
         opts.log_reads = true;
         setup.log_access = true;
@@ -447,6 +450,7 @@ pub fn judge(prop: &str, p: &Program, r: &RunResult, opts: &ExecOpts, js: &mut J
             }
         }
         "C07" => {
+            js.bump("tree_bins_emptied_by_removal", r.outcome.events.iter().filter(|e| e.ev == flurry::verif::Ev::UntreeifiedOnRemove && e.b == 1).count() as u64);
             out.extend(run_lin_f(p, r, js, oracle::Flavour::Iter));
             let mut st = IterStats { iterations: 0, complete: 0, stable_keys_checked: 0, overlapped_by_resize: 0, overlapped_by_writes: 0 };
             out.extend(oracle::iterators(p, r, &mut st));
